@@ -850,6 +850,24 @@ theorem variantContributes_eq (ctx : ImplContext) (v : Variant) : variantContrib
 
 /-- what the last check of validation establishes: every variant that has an arm in a conversion has a combination of
     variant-level instruction, literal and pattern that `render_enum_line` can write -/
+theorem ext_variantArmStep (v : Variant) (x : TraitAttr × Kind) : Ext (fun es => variantArmStep v es x) := by
+  intro es m hm
+  simp only [variantArmStep]
+  repeat' split
+  all_goals first | exact hm | exact mem_insert_of_mem _ _ _ hm
+
+/-- a message the last check produces for one variant under one (trait instruction, kind) is in the result of the whole -/
+theorem variantArm_reported (e : Enum) (hv : validate (.enum e) = []) (v : Variant) (hvm : v ∈ e.variants)
+    (x : TraitAttr × Kind) (hx : x ∈ traitAttrsByKind e.attrs) (m : String) (hstep : ∀ es, m ∈ variantArmStep v es x) :
+    m ∈ validateAll (.enum e) := by
+  unfold validateAll
+  simp only [hv]
+  refine mem_foldl_of_step _ _ _ _ v hvm (fun y es hm => ?_) (fun es => ?_)
+  · unfold variantArmPass
+    exact mem_foldl_of_mem _ _ _ _ (fun z es hm => ext_variantArmStep y z es m hm) hm
+  · unfold variantArmPass
+    exact mem_foldl_of_step _ _ _ _ x hx (fun z es hm => ext_variantArmStep v z es m hm) hstep
+
 theorem variantArm_supported (e : Enum) (hva : validateAll (.enum e) = []) (v : Variant) (hvm : v ∈ e.variants)
     (ta : TraitAttr) (k : Kind) (hta : (ta, k) ∈ traitAttrsByKind e.attrs) (hq : ta.core.quickReturn = none)
     (harm : variantHasArm v ta.core.ty k = true) :
@@ -861,30 +879,21 @@ theorem variantArm_supported (e : Enum) (hva : validateAll (.enum e) = []) (v : 
   | false =>
     exfalso
     have hv := validate_of_validateAll_nil _ hva
-    have : variantArmMsg v ta k ∈ validateAll (.enum e) := by
-      unfold validateAll
-      simp only [hv]
-      refine mem_foldl_of_step _ _ _ _ v hvm (fun y es hm => ?_) (fun es => ?_)
-      · unfold variantArmPass
-        refine mem_foldl_of_mem _ _ _ _ (fun x es hm => ?_) hm
-        simp only []
-        split
-        · exact hm
-        · split
-          · exact hm
-          · exact mem_insert_of_mem _ _ _ hm
-      · unfold variantArmPass
-        refine mem_foldl_of_step _ _ _ _ (ta, k) hta (fun x es hm => ?_) (fun es => ?_)
-        · simp only []
-          split
-          · exact hm
-          · split
-            · exact hm
-            · exact mem_insert_of_mem _ _ _ hm
-        · simp only [hq, Option.isSome_none, harm, Bool.not_true, Bool.or_self, Bool.false_eq_true, if_false, hsup]
-          exact mem_insert_self _ _
-    rw [hva] at this
-    cases this
+    cases hie : k.isIntoExisting with
+    | true =>
+      have : variantExistingMsg v ta k ∈ validateAll (.enum e) :=
+        variantArm_reported e hv v hvm (ta, k) hta _ (fun es => by
+          simp only [variantArmStep, hq, Option.isSome_none, harm, Bool.not_true, Bool.or_self, Bool.false_eq_true, if_false, hie, if_true]
+          exact mem_insert_self _ _)
+      rw [hva] at this
+      cases this
+    | false =>
+      have : variantArmMsg v ta k ∈ validateAll (.enum e) :=
+        variantArm_reported e hv v hvm (ta, k) hta _ (fun es => by
+          simp only [variantArmStep, hq, Option.isSome_none, harm, Bool.not_true, Bool.or_self, Bool.false_eq_true, if_false, hie, hsup]
+          exact mem_insert_self _ _)
+      rw [hva] at this
+      cases this
 
 section
 variable (s : String) (hs : s ∈ findingSites)
@@ -1380,5 +1389,52 @@ example : validateAll exCollide = [] ∧ exCollide.pathsWF = true ∧ exCollide.
 example : (match dataTypeImpls exCollide with
     | .error (.panic s) => s == "expand.rs:render_struct_line:unreachable(6)"
     | _ => false) = true := by decide +kernel
+
+/-! ### a corollary a user can read off the input: nothing is flattened, nothing can collide -/
+
+/-- no member is flattened (`#[child(..)]`) and no struct-level ghost is addressed to a nested struct (`path@name`) -/
+def DataType.noNesting (d : DataType) : Bool :=
+  match d with
+  | .struct s => s.fields.all (·.attrs.childAttrs.isEmpty) &&
+      s.attrs.ghostsAttrs.all fun ga => ga.attr.ghostData.all (·.childPath.isNone)
+  | .enum _ => true
+
+theorem noKeyCollision_of_noNesting (d : DataType) (h : d.noNesting = true) : d.noKeyCollision = true := by
+  cases d with
+  | enum e => rfl
+  | struct st =>
+    simp only [DataType.noNesting, Bool.and_eq_true, List.all_eq_true] at h
+    obtain ⟨hf, hg⟩ := h
+    simp only [DataType.noKeyCollision, List.all_eq_true, Bool.or_eq_true]
+    intro ctx _
+    right
+    have hL : (groupedMembers st ctx).filterMap (containerPath ctx) = [] := by
+      rw [List.filterMap_eq_nil_iff]
+      intro fc hfc
+      rcases groupedMembers_from st ctx fc hfc with ⟨x, hx, hfd⟩ | ⟨g, hgm, hfd, hsome⟩ | ⟨x, hx, ps, pc, hps, hpc, hfd⟩
+      · have hempty : x.attrs.childAttrs = [] := by simpa using hf x hx
+        simp [containerPath, hfd, MemberAttrs.child, findDedicatedOrDefault, hempty]
+      · exfalso
+        simp only [List.mem_flatMap, Option.mem_toList] at hgm
+        obtain ⟨ga, hga, hgd⟩ := hgm
+        obtain ⟨y, hym, rfl⟩ := ghostsAttr_mem _ _ _ _ hga
+        have := hg y hym g hgd
+        cases hcp : g.childPath <;> simp_all
+      · simp [containerPath, hfd]
+    simp only [noCollisionAt, hL, List.all_nil]
+    rw [List.all_eq_true]
+    intro fc _
+    split
+    · split <;> rfl
+    · rfl
+    · rfl
+
+/-- **C16, for inputs without nesting: `derive` never panics.** When no member is flattened and no struct-level ghost is
+    addressed to a nested struct — every enum, and every struct without `#[child(..)]` and `path@name` ghosts — the
+    derive, whatever else the input contains, reports diagnostics or generates the impls; it never panics. -/
+theorem C16_derive_never_panics_without_nesting (b : Back) (node : RawInput) (input : DataType)
+    (hp : parseInput b node = some input) (hraw : node.shapeWF = true) (hn : input.noNesting = true)
+    (s : String) : derive b node ≠ .panic s :=
+  C16_derive_never_panics_without_collision b node input hp hraw (noKeyCollision_of_noNesting input hn) s
 
 end O2o
